@@ -553,6 +553,30 @@ def work_C02(run, rng, budget):
             run.fail("non-isomorphic-molecules-share-a-string", f"{a.family} and {b.family} both give {sa!r}",
                      {"a": mol_repr(a), "b": mol_repr(b), "string": sa})
         run.sample({"a": a.family, "b": b.family, "strings": [sa, sb]})
+        # the same two molecules as files (what a user of the identifier starts from): atoms renumbered, atom lines carrying
+        # other index values than their position, bond lines in another order.  Non-isomorphic molecules must still get
+        # different strings; and a file must not get the string of a molecule it does not state.
+        if not same and a.n() <= 60:
+            fs = []
+            for mm, gm, sm in ((a, ga, sa), (b, gb, sb)):
+                m2, _ = G.relabel(mm, rng)
+                t, _ = (RD.render_v3000 if rng.random() < 0.7 else RD.render_v2000)(m2, rng, {"star": False, "sparse_index": True})
+                gg, e = safe(graph_from_molfile_text, t)
+                ss, e2 = safe(tucan_of, gg) if gg is not None else (None, e)
+                fs.append((t, ss))
+                if ss is None:
+                    run.stats["file_not_read"] += 1   # not a statement about C02 (C07/C08/C15 decide that)
+                elif ss != sm:
+                    # the file got the string of another molecule: exhibit that molecule
+                    h, _e = safe(graph_from_tucan, ss)
+                    sh, _e = safe(tucan_of, h.copy()) if h is not None else (None, None)
+                    if h is not None and sh == ss and not ISO.isomorphic(gm, h):
+                        run.fail("non-isomorphic-molecules-share-a-string", f"a file stating {mm.family} ({sm!r} at graph level) gets "
+                                 f"{ss!r}, the string of a non-isomorphic molecule", {"a": mol_repr(mm), "file": t, "string": ss})
+            run.stats["file_pairs"] += 1
+            if fs[0][1] is not None and fs[0][1] == fs[1][1]:
+                run.fail("non-isomorphic-molecules-share-a-string", f"files of {a.family} and {b.family} both give {fs[0][1]!r}",
+                         {"a": mol_repr(a), "b": mol_repr(b), "files": [fs[0][0], fs[1][0]], "string": fs[0][1]})
         # correspondence: the strings parse back (reconstruction is what the theorem uses)
         line, real, _ = R.op_parse(sa)
         run.corr(line, real, "observable")
@@ -568,7 +592,7 @@ def work_C02(run, rng, budget):
                 run.fail("non-isomorphic-molecules-share-a-string", f"collision on {s!r}",
                          {"a": mol_repr(m1), "b": mol_repr(m2), "string": s})
     return "hand-made near-miss pairs (same formula and degree sequence, rook vs Shrikhande, K33 vs prism, cospectral, moved " \
-           "isotope, radical vs isotope, element swap) + random 2-switches + all collisions among generated strings, judged by an " \
+           "isotope, radical vs isotope, element swap) + random 2-switches, at graph level and as renumbered V3000/V2000 files + all collisions among generated strings, judged by an " \
            "independent matcher (all bijections for n<=7, VF2 above); non-trivial = the pair is really non-isomorphic / a real collision"
 
 
@@ -675,6 +699,14 @@ def work_C05(run, rng, budget):
     g, err = safe(graph_from_molfile_text, text)
     if err is None:
         one(g, "reader:all118", {"molfile": text})
+    # files with a misspelt element symbol: normally refused; whatever a reader lets through must still come out as a sentence
+    for text in misspelt_symbol_files("C05"):
+        run.stats["misspelt_symbol"] += 1
+        line, real, _ = R.op_moltext(text)
+        run.corr(line, real, "atom-order")
+        g, err = safe(graph_from_molfile_text, text)
+        if err is None:
+            one(g, "reader:misspelt", {"molfile": text})
     # molecules as the readers produce them, including explicitly written defaults
     for _ in range(40 * budget):
         m = G.gen_mol(rng, max_n=10)
@@ -1058,6 +1090,10 @@ def work_C07(run, rng, budget):
         run.corr(line, real, "atom-order")
         corr_file(run, rng.choice(["\n", "\r\n", "\r"]).join(ls))
     run.corr(*R.op_splice([]), "exact")        # the splicer on no lines at all
+    for text in misspelt_symbol_files("C07"):
+        run.stats["misspelt_symbol"] += 1
+        line, real, _ = R.op_moltext(text)
+        run.corr(line, real, "atom-order")
     # the suffix check of graph_from_file (pathlib's notion of a suffix is the harness's, not the model's)
     ok_text = "\n  x\n\n  0  0  0     0  0            999 V3000\nM  V30 BEGIN CTAB\nM  V30 COUNTS 1 0 0 0 0\nM  V30 BEGIN ATOM\n" \
               "M  V30 1 C 0 0 0 0\nM  V30 END ATOM\nM  V30 END CTAB\nM  END\n"
@@ -1167,6 +1203,42 @@ def c08_molecules(run, rng, budget):
         yield m, {"use_codes": False, "blank_coords": False, "mass_diff": True, "short_lines": False}
 
 
+def misspelt_symbol_files(tag):
+    """Files whose atom lines spell an element symbol in a way the element table does not list (other case, a trailing
+    character, a lower-case D/T): the reader and the model must agree on the outcome, and whatever is accepted must still
+    be serialised to a sentence of the grammar.  Own random stream."""
+    import random as _random
+    import re as _re
+    rng = _random.Random(f"misspelt-{tag}-{os.environ.get('VERIF_SEED', '0')}")
+    out = []
+    variants = lambda sy: [sy.upper(), sy.lower(), sy.swapcase(), sy + "x", sy[0].lower() + sy[1:], sy + "2"]
+    for k in range(24):
+        m = G.gen_mol(rng, max_n=5, family="rare_elements" if k % 2 else None) if k % 3 else G.gen_mol(rng, family="charged_dt")
+        if m.n() < 1:
+            continue
+        i = rng.randrange(m.n())
+        if k % 2 == 0:
+            text, info = RD.render_v3000(m, rng, {"star": False, "split": "none", "wide_blanks": False, "dt": True})
+            ls = text.split("\r\n" if "\r\n" in text else "\n")
+            atom_rows = [j for j, l in enumerate(ls) if _re.match(r"^M  V30 \d+ [A-Za-z]+ ", l)]
+            if not atom_rows:
+                continue
+            j = atom_rows[i % len(atom_rows)]
+            mo = _re.match(r"^(M  V30 \d+ )([A-Za-z]+)( .*)$", ls[j])
+            sy = mo.group(2)
+            new = [v for v in variants(sy) if v != sy]
+            ls[j] = mo.group(1) + rng.choice(new) + mo.group(3)
+        else:
+            text, info = RD.render_v2000(m, rng, {"crlf": False, "atom_lists": False, "dt": True})
+            ls = text.split("\n")
+            j = 4 + i
+            sy = ls[j][31:34].strip()
+            new = [v for v in variants(sy) if v != sy and len(v) <= 3]
+            ls[j] = ls[j][:31] + f"{rng.choice(new):<3s}" + ls[j][34:]
+        out.append("\n".join(ls))
+    return out
+
+
 def malformed_v2000(run):
     """V2000 files that are not connection tables: the reader and the model must agree on the outcome (both reject, or both read
     the same thing); own random stream"""
@@ -1198,6 +1270,10 @@ def malformed_v2000(run):
             ls = ls[:4]                                                 # nothing after the counts line
         run.stats["malformed_v2000"] += 1
         line, real, _ = R.op_moltext("\n".join(ls))
+        run.corr(line, real, "atom-order")
+    for text in misspelt_symbol_files("C08"):
+        run.stats["misspelt_symbol"] += 1
+        line, real, _ = R.op_moltext(text)
         run.corr(line, real, "atom-order")
 
 
@@ -1517,11 +1593,19 @@ def work_C10(run, rng, budget):
                 "c/", "C /", " C/", "C/\n", "C/(1-2", "C/1-2)", "C/(1 2)", "C/((1-2))", "C2/(1-2)/(1:mass=13)/", "CC/", "C2C/",
                 "H2O/(1-3)(2-3)", "OH2/", "HO2/", "H2O2/(1-3)(2-4)(3-4)", "C999/", "C/(1-" + "1" * 4300 + ")", "C/(1-" + "1" * 4301 + ")",
                 "C/(1-" + "1" * 5000 + ")", "C" + "9" * 4301 + "/" if False else "C2/(1-2)/(1:mass=" + "7" * 4400 + ")"]
+    # attribute values at the interpreter's limit for decimal literals: 4299 and 4300 digits are sentences with a meaning
+    # (the grammar puts no bound on a value), 4301 digits cannot be converted and is refused with the parser's exception
+    at_limit = ["C2/(1-2)/(1:mass=" + "7" * d + ")" for d in (4299, 4300)] + ["CH4/(1-5)(2-5)(3-5)(4-5)/(5:rad=" + "3" * 4300 + ")",
+                "C2/(1-2)/(2:mass=1" + "0" * 4299 + ",rad=2)"]
+    boundary += at_limit + ["C2/(1-2)/(1:mass=" + "7" * 4301 + ")"]
     for s in boundary:
         line, real, _ = R.op_parse(s)
         run.corr(line, real, "observable", meta={"string": s})
         run.case(("C10b", s), True)
         run.stats["boundary"] += 1
+        if s in at_limit and real.startswith("ERR "):
+            run.fail("sentence-rejected", f"{s[:40]!r}… (a value of {max(len(x) for x in __import__('re').findall(r'[0-9]+', s))} "
+                     f"digits): {real}", {"string": s})
         if real.startswith("ERR ") and real != "ERR TucanParserException":
             key = "int-literal-over-4300-digits" if max((len(x) for x in __import__("re").findall(r"[0-9]+", s)), default=0) > 4300 \
                 else "rejected-with-foreign-exception"
@@ -1549,9 +1633,33 @@ def norm(s):
     return serialize_molecule(canonicalize_molecule(graph_from_tucan(s)))
 
 
+def tiny_labelled_sentences(rng):
+    """Two to four atoms of one element, some of them labelled, with and without bonds: the smallest molecules on which
+    renumbering inside an element block is visible (a size special-cased anywhere in the pipeline shows here)."""
+    out = []
+    for sym in ("H", "C", "O", "Cl"):
+        for n in (2, 3, 4):
+            shapes = [[], [(1, 2)], [(i, i + 1) for i in range(1, n)]]
+            if n >= 3:
+                shapes.append([(i, i + 1) for i in range(1, n)] + [(1, n)])
+            for bonds in shapes:
+                for key, val in (("mass", 2 if sym == "H" else 13), ("rad", 1), ("rad", 2)):
+                    for at in (1, n):
+                        out.append(({sym: n}, list(bonds), {at: {key: val}}))
+                out.append(({sym: n}, list(bonds), {1: {"mass": 3}, n: {"rad": 3}}))
+    rng.shuffle(out)
+    return out
+
+
 def work_C11(run, rng, budget):
-    for _ in range(80 * budget):
-        s, spec = TG.gen_sentence(rng, max_count=10)
+    tiny = tiny_labelled_sentences(rng)[: 60 * budget]
+    for k in range(80 * budget + len(tiny)):
+        if k < len(tiny):
+            spec = tiny[k]
+            s = TG.spell(*spec, rng)
+            run.stats["tiny_labelled"] += 1
+        else:
+            s, spec = TG.gen_sentence(rng, max_count=10)
         counts, bonds, attrs = spec
         if sum(counts.values()) == 0:
             continue
@@ -1575,7 +1683,7 @@ def work_C11(run, rng, budget):
                          {"strings": [s, s2], "norms": [n0, n2]})
         run.sample({"s": s, "norm": n0})
     return "accepted sentences and 3 meaning-preserving respellings each (tuple order, endpoint swaps, repeated tuples, split/" \
-           "reordered attribute blocks, renumbering inside element blocks); norm = serialize.canonicalize.parse on the real code; " \
+           "reordered attribute blocks, renumbering inside element blocks), first a family of tiny molecules (2-4 atoms of one element, one or two labelled); norm = serialize.canonicalize.parse on the real code; " \
            "non-trivial = the respelling differs textually"
 
 
